@@ -66,7 +66,7 @@ CHECKS = {
          "Exploration: 4 content types x 4 extensions x 9 layout modes x 9 bodies x 4 data maps, every sequence of <=3 (thorough 4) contentFor/contentOf operations x 3 placements, and thousands of random trees of partials (depth 3), layouts, stored blocks and block helpers: the composed render must equal, byte for byte, the render in which every composition is replaced by an independently rendered, unescaped, exactly-once splice (JS-escaped once where the content type demands), and errors must agree.",
          "What a layout sees of the partial's data and the definition-vs-use scope of stored blocks are not fixed by the statement and are not generated.",
          "DESIGN.md §4 C17"),
- "C04": ("exhaustive kind matrices over a 99-value pool (operators, index read/write, members, iteration, calls, every built-in helper x argument kinds, emit/let/assign/if) + rapid random well-formed programs; totality oracle with panics grouped by root cause (first plush frames + normalised message)",
+ "C04": ("exhaustive kind matrices over a 99-value pool (operators, index read/write, members, iteration, calls, every built-in helper x argument kinds, emit/let/assign/if) + rapid random well-formed programs + native go fuzz of the evaluator (FuzzRender, whole pool bound); totality oracle with panics grouped by root cause (first plush frames + normalised message)",
          "Exploration: seven matrices (~0.6M cells quick, 4.5M thorough) over 99 pool values covering every kind the statement lists, plus 20k-150k random programs per run; each render must return output or an error, never a panic; a panic is reported once per root cause with its smallest witness.",
          "Fatal stack overflows cannot be recovered and surface as an inconclusive run (exit 2), not as a VIOLATION; unbounded template recursion is not generated; range/between/until are iterated with small arguments only.",
          "DESIGN.md §4 C04"),
